@@ -99,6 +99,15 @@ def raise_styled(style, cls, msg, hook=None):
     if style == "nomsg":
         # an exception without any message: str(e) == ""
         raise cls()
+    if style == "notimpl" and hook == "setUp":
+        # an "abstract" base layer: its setUp is not implemented - for a setUp that is an error like any other (only a
+        # tearDown may say "not supported" this way)
+        raise NotImplementedError(msg)
+    if style == "oserror":
+        # what a fixture that cannot get a resource raises: an OSError with an errno (out of memory for a fork or an
+        # mmap, no space left, too many open files) - an Exception like any other
+        import errno
+        raise OSError(errno.ENOMEM if len(msg) % 2 else errno.ENOSPC, msg)
     if style == "cause":
         try:
             raise KeyError("inner of " + msg)
